@@ -54,6 +54,8 @@ class NotOrMacro(Macro):
         prevs is the negative disjunction
         """
         goal, pt0 = args[0], prevs[0]
+        if not pt0.prop.is_not() or not goal.is_not():
+            raise VeriTException("not_or", "premise and goal must be negations")
         disjs = pt0.prop.arg.strip_disj()
         for d in disjs:
             if d == goal.arg:
@@ -84,8 +86,12 @@ class NotAndMacro(Macro):
 
     def eval(self, args, prevs):
         goal, pt0 = Or(*args), prevs[0]
+        if not pt0.prop.is_not():
+            raise VeriTException("not_and", "premise must be a negation")
         conj_atoms = pt0.prop.arg.strip_conj()
         disj_atoms = goal.strip_disj()
+        if len(conj_atoms) != len(disj_atoms):
+            raise VeriTException("not_and", "unexpected goal: %s" % goal)
         for i, j in zip(conj_atoms, disj_atoms):
             if Not(i) != j:
                 raise VeriTException("not_and", "unexpected goal: %s" % goal)
@@ -109,6 +115,8 @@ class NotNotMacro(Macro):
 
     def eval(self, args, prevs=None):
         neg_arg, pos_arg = args
+        if not (neg_arg.is_not() and neg_arg.arg.is_not() and neg_arg.arg.arg.is_not()):
+            raise VeriTException("not_not", "unexpected goal: %s" % Or(*args))
         if neg_arg.arg.arg.arg == pos_arg:
             return Thm(Or(neg_arg, pos_arg))
         else:
@@ -490,6 +498,8 @@ class VeritImpliesMacro(Macro):
         # goal : ~a | b  pt: |- a --> b
         goal = Or(*args)
         pt = prevs[0]
+        if not pt.prop.is_implies():
+            raise VeriTException("implies", "premise must be an implication")
         if Or(Not(pt.prop.arg1), pt.prop.arg) == goal:
             return Thm(goal, pt.hyps)
         else:
@@ -509,6 +519,8 @@ class VeriTAndPos(Macro):
     def eval(self, args, prevs=None):
         # args: ~(p1 & p2 & ... & pn) and pk
         neg_conj, pk = args
+        if not neg_conj.is_not():
+            raise VeriTException("and_pos", "first literal must be a negated conjunction")
         conjs = neg_conj.arg.strip_conj()
         if pk in conjs:
             return Thm(Or(neg_conj, pk))
@@ -537,6 +549,8 @@ class VeriTOrPos(Macro):
 
     def eval(self, args, prevs=None):
         neg_disj = args[0]
+        if not neg_disj.is_not():
+            raise VeriTException("or_pos", "first literal must be a negated disjunction")
         disjs = neg_disj.arg.strip_disj()
         for a, b in zip(disjs, args[1:]):
             if a != b:
@@ -564,6 +578,8 @@ class VeriTNotEquiv1(Macro):
     def eval(self, args, prevs):
         pt = prevs[0]
         p1, p2 = args
+        if not (pt.prop.is_not() and pt.prop.arg.is_equals()):
+            raise VeriTException("not_equiv1", "premise must be a negated equivalence")
         pt_p1, pt_p2 = pt.prop.arg.arg1, pt.prop.arg.arg
         if p1 == pt_p1 and p2 == pt_p2:
             return Thm(Or(p1, p2), pt.hyps)
@@ -589,6 +605,8 @@ class VeriTNotEquiv1(Macro):
     def eval(self, args, prevs):
         pt = prevs[0]
         p1, p2 = args
+        if not (pt.prop.is_not() and pt.prop.arg.is_equals() and p1.is_not() and p2.is_not()):
+            raise VeriTException("not_equiv2", "premise must be a negated equivalence, goal two negations")
         pt_p1, pt_p2 = pt.prop.arg.arg1, pt.prop.arg.arg
         if p1.arg == pt_p1 and p2.arg == pt_p2:
             return Thm(Or(p1, p2), pt.hyps)
@@ -614,6 +632,8 @@ class Equiv1Macro(Macro):
     
     def eval(self, args, prevs):
         pt = prevs[0]
+        if not pt.prop.is_equals():
+            raise VeriTException("equiv1", "premise must be an equivalence")
         p1, p2 = pt.prop.args
         if Not(p1) == args[0] and p2 == args[1]:
             return Thm(Or(*args), pt.hyps)
@@ -637,6 +657,8 @@ class Equiv1Macro(Macro):
     
     def eval(self, args, prevs):
         pt = prevs[0]
+        if not pt.prop.is_equals():
+            raise VeriTException("equiv2", "premise must be an equivalence")
         p1, p2 = pt.prop.args
         if p1 == args[0] and Not(p2) == args[1]:
             return Thm(Or(*args), pt.hyps)
